@@ -24,7 +24,12 @@ struct Checker
 
     void fail(const std::string& key, const std::string& d)
     {
-        c.violation("C13:" + key + ":" + cls, d, cls + " history: " + history);
+        if (c.prop == "C13")
+            c.violation("C13:" + key + ":" + cls, d, cls + " history: " + history);
+        // C12 reuses these executions for the layout of the variable-length parts setData writes (length prefixes,
+        // data, NUL / zero padding at the offsets the layout prescribes)
+        else if (c.prop == "C12" && (key == "raw-bytes-depend-on-history-or-differ-from-content" || key == "string-not-nul-terminated-or-padded"))
+            c.violation("C12:variable-part-not-at-layout-position:" + cls, d, cls + " history: " + history);
     }
 
     template <typename P>
@@ -509,7 +514,7 @@ inline void freshVersusUsed(Ctx& c, Rng& r)
         fresh.setData(a.data(), static_cast<uint16_t>(n2), v.data(), static_cast<uint16_t>(v.size()));
         ++c.evaluations;
         if (used.getLength() != fresh.getLength() || memcmp(used.getRawPayload(), fresh.getRawPayload(), used.getLength()) != 0)
-            c.violation("C13:raw-bytes-depend-on-history:InterfacePayload", "used object " + hex(used.getRawPayload(), used.getLength(), 100) + " fresh object " + hex(fresh.getRawPayload(), fresh.getLength(), 100),
+            if (c.prop == "C13") c.violation("C13:raw-bytes-depend-on-history:InterfacePayload", "used object " + hex(used.getRawPayload(), used.getLength(), 100) + " fresh object " + hex(fresh.getRawPayload(), fresh.getLength(), 100),
                         "setData(" + std::to_string(a.size()) + " ids) then setData(" + std::to_string(n2) + " ids) versus fresh setData(" + std::to_string(n2) + " ids)");
     }
     {
@@ -521,7 +526,7 @@ inline void freshVersusUsed(Ctx& c, Rng& r)
         fresh.setData(s1, s2, s2, s1, vd);
         ++c.evaluations;
         if (used.getLength() != fresh.getLength() || memcmp(used.getRawPayload(), fresh.getRawPayload(), used.getLength()) != 0)
-            c.violation("C13:raw-bytes-depend-on-history:CaptureModulePayload", "used and fresh object differ", "two setData calls versus one");
+            if (c.prop == "C13") c.violation("C13:raw-bytes-depend-on-history:CaptureModulePayload", "used and fresh object differ", "two setData calls versus one");
     }
     c.count("fresh_versus_used_comparisons", 2);
 }
